@@ -621,6 +621,13 @@ func c03Cli(c *Case) {
 		} else {
 			quiet = waitBlockedInRead(pid, 5*time.Second)
 		}
+		if !quiet && procEnded(pid) && fed < len(data) && len(bytes.TrimSpace(data[fed:])) > 0 {
+			// a state, not a deadline: the process has ended although its input is still open and more of the (clean) stream is to come
+			bad = fmt.Sprintf("the process ended after %d of %d input bytes had been delivered, although the writer had not closed the input (%s)", fed, len(data),
+				map[bool]string{true: "a named pipe given as a file", false: "standard input"}[fifo != ""])
+			c.Count("cli_ended_before_end_of_input")
+			break
+		}
 		if !quiet {
 			c.Inconclusive("cli-not-quiescent")
 			bad = "skip"
@@ -785,6 +792,18 @@ func (l *lockedBuf) String() string              { l.lock(); defer l.unlock(); r
 // waitIdle: every thread of pid sleeps in the kernel and the process used no CPU time between two
 // observations 30 ms apart (a state, not a deadline: the timeout only makes the case inconclusive).
 // Used where the input is polled by the runtime rather than read with a blocking read(2).
+// procEnded: the process is a zombie (it has exited and we have not yet waited for it) or is gone.
+func procEnded(pid int) bool {
+	b, err := os.ReadFile(fmt.Sprintf("/proc/%d/stat", pid))
+	if err != nil {
+		return true
+	}
+	s := string(b)
+	i := strings.LastIndexByte(s, ')')
+	f := strings.Fields(s[i+1:])
+	return len(f) > 0 && (f[0] == "Z" || f[0] == "X")
+}
+
 func waitIdle(pid int, max time.Duration) bool {
 	deadline := time.Now().Add(max)
 	snap := func() (string, bool) {
